@@ -21,14 +21,30 @@
        C10_remove_file_keeps, C10_remove_file_exact, C10_remove_file_exact_index, C10_remove_file_exact_refs,
        C10_remove_last_file, C10_inv, C10_history, C10_reachable, C10_files_owned, C10_owned_never_unowned,
        C10_inv_owned, C10_history_owned, C10_reachable_owned (the same three without the Unowned exclusion: FilesOwned,
-       "every file listed in a model names that model", holds in the empty world and is preserved by all 26 operations)
+       "every file listed in a model names that model", holds in the empty world and is preserved by all 26 operations),
+       C10_remove_file_exact_owned, _index_owned, _refs_owned, C10_remove_file_other_tree(_owned),
+       C10_remove_file_other_text(_owned), C10_text_is_projection, C10_projection_preorder, C10_file_self_contained,
+       C10_step2_owned, C10_history2_owned, C10_reachable2_owned (alphabet op2 of Tree/Script2.v), C10_duplicate_partial
+   "leaves the content of every other file unchanged": the projection TREE of every other file g (fproj: names, stored
+       types, attributes, character data, comments, order) is unchanged (C10_remove_file_other_tree); its TEXT is
+       unchanged iff no written element of g loses its whole content — proved in the direction KeepsSome -> same text
+       (C10_remove_file_other_text), witness of the other direction C10_other_text_witness: <X>..</X> becomes <X/>.
+       The property speaks of content, not text: no finding.
+   "loads on its own": C10_file_self_contained = C10_text_is_projection (ser_heap = ser_elem of fproj on elements that
+       are not hollow) composed with C01's file round trip; side conditions explicit: NoHollow, RootCanon (C01).
+   op2: OpLoad is PENDING (no heap-level invariant theorem; the membership after merges is C09_merge_union /
+       C09_file_projection on the pure model, class Good, tied to the heap by C09_load_refines) and OpDuplicate is
+       PENDING for FilesInv of the copy (C10_duplicate_partial: FilesOwned and the old models are kept); these two are
+       also the known finding C10-merge-membership-inconsistent.
    [P] C10_remove_file_exact ("removes exactly") carries the side condition that no SHORT-NAME element of the model has
        a local file set: without it a deletion of the scan list can fail and the element stays (finding
        C10-shortname-own-file-set, witness d_short_* in Tree/Files.v); C10_remove_file_exact_index / _refs take
        agent-c04's IndexExact / RefsExact OF THE RESULT WORLD as hypotheses (their preservation is C04 / C05);
-       C10_self_contained is reduced to the XML layer (C01 / C07) and checked by the oracle (every file text is
-       re-loaded)
-   [F] C10_add_foreign_refuted, C10_root_last_refuted, C10_root_last_remove_file_refuted, C10_move_local_refuted
+       C10_self_contained (older, abstract form) is superseded by C10_file_self_contained, whose hypotheses RootCanon
+       (types as strict loading assigns them, header attributes, value spelling: C01/C07) and NoHollow are not
+       derived from FilesInv; the oracle re-loads every file text
+   [F] C10_add_foreign_refuted, C10_root_last_refuted, C10_root_last_remove_file_refuted, C10_move_local_refuted,
+       C10_other_text_witness
        (vm_compute on the tiny table set of Tree/Files.v). *)
 From AV Require Import Base.Bytes Base.Outcome Hash.HashModel Tree.Heap Tree.Ops Tree.Script Tree.Serialize Tree.Inv.
 From AV Require Import Tree.Files Tree.FilesProofsProj Tree.FilesProofsFrame Tree.FilesProofsAdd Tree.FilesProofsRemove Tree.FilesProofsExact Tree.FilesProofsLast Tree.FilesProofsMove
